@@ -37,6 +37,8 @@ NODE_KEYS = ["head", "demand", "pressure", "leak_demand"]
 LINK_KEYS = ["flowrate", "velocity", "status", "setting"]
 
 
+NEWTON_DEFAULTS = {"MAXITER": 3000, "TOL": 1e-6, "BT_RHO": 0.5, "BT_MAXITER": 100, "BACKTRACKING": True, "BT_START_ITER": 0,
+                   "TIME_LIMIT": 3600}  # refreshed by the translator from NewtonSolver.__init__
 ZERO_SAFE = [True]  # since fix 14495b3c NewtonSolver.solve binds outer_iter / iter_bt before the loops (zero limits are generated)
 SCIPY_NONLIN = ["diagbroyden", "broyden1", "newton_krylov", "anderson"]
 LOW_KINDS = ["sp-valueerror", "sp-fpe", "sp-shape", "sp-noconv"]
@@ -131,7 +133,12 @@ def random_spec(rng, quick, trial_flip=False, odd_options=False):
     spec = add_controls(rng, spec, trial_flip=trial_flip)
     if unbalanced is not None:
         spec["c16_unbalanced"] = unbalanced  # [OPTIONS] UNBALANCED: WNTRSimulator has no "continue after a failed status iteration"
-    if rng.random() < 0.3:  # NewtonSolver options off their defaults (limits >= 1: 0 dies with UnboundLocalError, Props/C16Newton)
+    if rng.random() < 0.25:  # FALSY option values: a key that is present wins (MAXITER=0 => the first solve fails => the run stops and says so)
+        spec["c16_solver_options"] = rng.choice([{"MAXITER": 0}, {"BT_MAXITER": 0}, {"TIME_LIMIT": 0}, {"BACKTRACKING": False, "MAXITER": 150},
+                                                 {"MAXITER": 0, "BACKTRACKING": False}, {"BT_START_ITER": 0, "BT_MAXITER": 0}])
+        if rng.random() < 0.5:
+            spec["c16_backup_options"] = rng.choice([{"MAXITER": 0}, {"TIME_LIMIT": 0}, {"BT_MAXITER": 0}, {"BACKTRACKING": False, "MAXITER": 40}])
+    elif rng.random() < 0.3:  # NewtonSolver options off their defaults (limits >= 1: 0 dies with UnboundLocalError, Props/C16Newton)
         so = {}
         if rng.random() < 0.5:
             so["MAXITER"] = rng.choice([2, 4, 10, 50] + ([0] if ZERO_SAFE[0] else []))
@@ -270,9 +277,17 @@ def observe_run(spec, plan=None, backup=None, conv_err=False, max_calls=None, ke
     def solve_wrapper(self_solver, model, ostream=None):
         """record what happens inside the real NewtonSolver.solve: the residual norm of every evaluate_residuals() call and
         whether each spsolve call succeeded; afterwards re-evaluate the residual of the state the model is left in"""
-        rec = {"norms": [], "lin": [], "opts": {"maxiter": self_solver.maxiter, "tol": float(self_solver.tol), "rho": float(self_solver.rho),
-                                                 "bt_maxiter": self_solver.bt_maxiter, "bt": bool(self_solver.bt),
-                                                 "bt_start_iter": self_solver.bt_start_iter},
+        # the options the caller ASKED for (present key wins, falsy or not; defaults as read off __init__ by the translator) are what
+        # the Lean model is run with; the attributes the solver object really carries are compared with them by the oracle
+        asked = dict(NEWTON_DEFAULTS)
+        asked.update({k: v for k, v in (self_solver._options or {}).items() if k in NEWTON_DEFAULTS})
+        rec = {"norms": [], "lin": [], "opts": {"maxiter": int(asked["MAXITER"]), "tol": float(asked["TOL"]), "rho": float(asked["BT_RHO"]),
+                                                 "bt_maxiter": int(asked["BT_MAXITER"]), "bt": bool(asked["BACKTRACKING"]),
+                                                 "bt_start_iter": int(asked["BT_START_ITER"]), "time_limit": asked["TIME_LIMIT"]},
+               "effective": {"maxiter": self_solver.maxiter, "tol": float(self_solver.tol), "rho": float(self_solver.rho),
+                             "bt_maxiter": self_solver.bt_maxiter, "bt": bool(self_solver.bt), "bt_start_iter": self_solver.bt_start_iter,
+                             "time_limit": self_solver.time_limit},
+               "asked_keys": sorted(k for k in (self_solver._options or {}) if k in NEWTON_DEFAULTS),
                "empty": len(model.get_x()) == 0}
         real_eval = model.evaluate_residuals
         inner_spsolve = spla.spsolve  # the real one, or the fault-injecting one
@@ -398,7 +413,7 @@ def observe_run(spec, plan=None, backup=None, conv_err=False, max_calls=None, ke
         kw["solver_options"] = {"maxiter": 60}
     if backup == "newton":
         kw["backup_solver"] = NewtonSolver
-        kw["backup_solver_options"] = {"MAXITER": 500}
+        kw["backup_solver_options"] = dict(spec.get("c16_backup_options") or {"MAXITER": 500})
     elif backup == "fsolve":
         kw["backup_solver"] = scipy.optimize.fsolve
     elif backup in SCIPY_NONLIN:
@@ -860,15 +875,37 @@ def newton_shape_from_source(path):
         raise vlib.BrokenTie("unrecognised statement in NewtonSolver.solve (line %d): %s" % (st.lineno, ast.unparse(st)[:160]))
 
     body = tr_block(fns["solve"].body, 0)
-    # option defaults from __init__: `if "KEY" not in self._options: self.attr = <literal>`
-    defaults = {}
+    # the option-reading skeleton of __init__: one block per option,
+    #   if "KEY" not in self._options: self.attr = <default>   else: self.attr = self._options["KEY"]
+    # ("a key that is present wins, even when its value is falsy")
+    defaults, reads = {}, []
     for st in fns["__init__"].body:
-        if isinstance(st, ast.If) and isinstance(st.test, ast.Compare) and len(st.body) == 1 and isinstance(st.body[0], ast.Assign):
-            key = ast.unparse(st.test.left).strip("'\"")
-            if key in _N_DEFAULTS:
-                defaults[_N_DEFAULTS[key]] = ast.literal_eval(st.body[0].value)
-    if set(defaults) != set(_N_DEFAULTS.values()):
+        if not isinstance(st, ast.If):
+            continue
+        t = st.test
+        if ast.unparse(t) == "options is None":
+            continue
+        ok = (isinstance(t, ast.Compare) and len(t.ops) == 1 and isinstance(t.ops[0], ast.NotIn) and isinstance(t.left, ast.Constant)
+              and ast.unparse(t.comparators[0]) == "self._options" and len(st.body) == 1 and len(st.orelse) == 1
+              and isinstance(st.body[0], ast.Assign) and isinstance(st.orelse[0], ast.Assign))
+        if not ok:
+            raise vlib.BrokenTie("NewtonSolver.__init__: an option is no longer read by `if KEY not in self._options: default else: self._options[KEY]`: "
+                                 + ast.unparse(st)[:120])
+        key = t.left.value
+        a1, a2 = ast.unparse(st.body[0].targets[0]), ast.unparse(st.orelse[0].targets[0])
+        if a1 != a2 or not a1.startswith("self.") or ast.dump(st.orelse[0].value) != _canon('self._options["%s"]' % key, "eval"):
+            raise vlib.BrokenTie("NewtonSolver.__init__: unexpected option block for %s: %s" % (key, ast.unparse(st)[:160]))
+        reads.append((key, a1[len("self."):]))
+        if key in _N_DEFAULTS:
+            defaults[_N_DEFAULTS[key]] = ast.literal_eval(st.body[0].value)
+        elif key == "TIME_LIMIT":
+            defaults["timeLimit"] = ast.literal_eval(st.body[0].value)
+    if set(defaults) != set(_N_DEFAULTS.values()) | {"timeLimit"}:
         raise vlib.BrokenTie("NewtonSolver.__init__ defaults not recognised: %s" % sorted(defaults))
+    defaults["_reads"] = reads
+    NEWTON_DEFAULTS.clear()
+    NEWTON_DEFAULTS.update({"MAXITER": defaults["maxiter"], "TOL": defaults["tol"], "BT_RHO": defaults["rho"], "BT_MAXITER": defaults["btMaxiter"],
+                            "BACKTRACKING": defaults["bt"], "BT_START_ITER": defaults["btStartIter"], "TIME_LIMIT": defaults["timeLimit"]})
     return defaults, body
 
 
@@ -965,6 +1002,10 @@ def gen_newton_lean(defaults, body, hshape):
         "  { maxiter := %d, tol := %s, rho := %s, btMaxiter := %d, bt := %s, btStartIter := %d, c1 := %s }"
         % (defaults["maxiter"], vlib.lean_rat(Fraction(float(defaults["tol"]))), vlib.lean_rat(Fraction(float(defaults["rho"]))),
            defaults["btMaxiter"], "true" if defaults["bt"] else "false", defaults["btStartIter"], vlib.lean_rat(Fraction(0.0001))),
+        "",
+        "/-- how `NewtonSolver.__init__` reads each option: (key, attribute); every block has the form",
+        "`if KEY not in self._options: self.attr = default else: self.attr = self._options[KEY]` (a present key wins, falsy or not) -/",
+        "def optionReads : List OptRead := [" + ", ".join('{ key := "%s", attr := "%s", presentKeyWins := true }' % ka for ka in defaults["_reads"]) + "]",
         "",
         "/-- the branches of `_solver_helper` (wntr/sim/core.py) and the `except` clause around the scipy nonlinear solvers -/",
         "def helperShape : HelperShape :=",
@@ -1095,9 +1136,9 @@ def newton_line(rec):
     o = rec["opts"]
     norms = ",".join("nan" if (v is None or v != v or v in (float("inf"), float("-inf"))) else vlib.frac_str(v) for v in rec["norms"]) or "-"
     lin = "".join("1" if b else "0" for b in rec["lin"]) or "-"
-    return "newton %d %s %s %d %d %d %s %d - %s %s" % (
+    return "newton %d %s %s %d %d %d %s %d %s %s %s" % (
         o["maxiter"], vlib.frac_str(o["tol"]), vlib.frac_str(o["rho"]), o["bt_maxiter"], 1 if o["bt"] else 0, o["bt_start_iter"],
-        vlib.frac_str(0.0001), 1 if rec["empty"] else 0, norms, lin)
+        vlib.frac_str(0.0001), 1 if rec["empty"] else 0, "0" if o.get("time_limit", 1) == 0 else "-", norms, lin)
 
 
 def newton_float_replay(rec):
@@ -1117,6 +1158,8 @@ def newton_float_replay(rec):
 
     k = -1
     for k in range(o["maxiter"]):
+        if o.get("time_limit", 1) == 0:
+            return ("error", "timeLimit", k, ne)
         if use_r:
             r_norm = new_norm
         else:
@@ -1150,6 +1193,11 @@ def newton_float_replay(rec):
 def judge_newton(rec):
     """statement-level oracle on one real NewtonSolver.solve call -> list of (key, what)"""
     out = []
+    bad = [k for k in rec["opts"] if rec["effective"].get(k) != rec["opts"][k]]
+    if bad:
+        out.append(("newton-option-not-honoured",
+                    "NewtonSolver was given options %s but runs with %s (asked %s)" % (
+                        rec["asked_keys"], {k: rec["effective"][k] for k in bad}, {k: rec["opts"][k] for k in bad})))
     if "ret" not in rec:
         return out  # an exception inside solve surfaces through run_sim and is judged there
     st, text, it = rec["ret"]
@@ -1307,7 +1355,9 @@ class C16(Check):
             cases.append({"spec": spec, "plan": {}, "backup": None, "conv_err": False, "kind": "scipy-primary", "solver": rng.choice(SCIPY_NONLIN)})
             cases.append({"spec": spec, "plan": {k: "maxiter"}, "backup": rng.choice(SCIPY_NONLIN), "conv_err": rng.random() < 0.5, "kind": "scipy-backup"})
         ks = list(range(n))
-        if not exhaustive and len(ks) > 8:
+        if ctx.quick and n > 60:
+            ks = sorted(rng.sample(ks, 3))  # a run with hundreds of solves (status iteration that keeps flipping): keep the quick tier quick
+        elif not exhaustive and len(ks) > 8:
             ks = sorted(rng.sample(ks, 8))
         for k in ks:
             if exhaustive:
@@ -1413,7 +1463,7 @@ class C16(Check):
                     ctx.count("newton_solve_calls")
                     for key, what in judge_newton(rec):
                         failures.append(Failure(key, what, dict(replay, newton={"opts": rec["opts"], "ret": rec.get("ret"), "norms": rec["norms"][:50]})))
-                    if "ret" in rec and len(rec["norms"]) > (3000 if ctx.quick else 40000):
+                    if "ret" in rec and len(rec["norms"]) > (600 if ctx.quick else 40000):
                         ctx.count("newton_long_traces_not_replayed")  # thousands of exact rationals per line: oracle only
                     elif "ret" in rec and len(nlines) < (4000 if ctx.quick else 20000):
                         nlines.append(newton_line(rec))
